@@ -10,6 +10,7 @@ import (
 	"os"
 	"path/filepath"
 	"sort"
+	"strings"
 	"time"
 
 	"github.com/superfly/litefs"
@@ -20,21 +21,22 @@ import (
 )
 
 type Step struct {
-	Op       string            `json:"op"`                // rtx | wtx | appckpt | lfsckpt | reopen | drop | lockonly
-	Writes   map[uint32]uint64 `json:"writes,omitempty"`  // pgno -> content id
-	Frames   [][2]uint64       `json:"frames,omitempty"`  // WAL: (pgno, content id) in write order
-	Aborted  [][2]uint64       `json:"aborted,omitempty"` // WAL: frames of a rolled-back tx written first
-	NewSize  uint32            `json:"new_size,omitempty"`
-	JMode    int               `json:"jmode,omitempty"`
-	Outcome  int               `json:"outcome,omitempty"`
-	Sector   int               `json:"sector,omitempty"`
-	ToWAL    bool              `json:"to_wal,omitempty"`
-	Split    bool              `json:"split,omitempty"`
-	CkptMode int               `json:"ckpt_mode,omitempty"` // 0 passive 1 full 2 restart 3 truncate
-	Ages     []bool            `json:"ages,omitempty"`      // retention: per file (directory order) older than the cut-off?
-	Backup   bool              `json:"backup,omitempty"`    // retention: a backup client is configured
-	HWM      uint64            `json:"hwm,omitempty"`       // retention: high-water mark
-	Spill    int               `json:"spill,omitempty"`     // rtx: pages beyond old and new size spilled to the file and freed again
+	Op         string            `json:"op"`                // rtx | wtx | appckpt | lfsckpt | reopen | drop | lockonly
+	Writes     map[uint32]uint64 `json:"writes,omitempty"`  // pgno -> content id
+	Frames     [][2]uint64       `json:"frames,omitempty"`  // WAL: (pgno, content id) in write order
+	Aborted    [][2]uint64       `json:"aborted,omitempty"` // WAL: frames of a rolled-back tx written first
+	NewSize    uint32            `json:"new_size,omitempty"`
+	JMode      int               `json:"jmode,omitempty"`
+	Outcome    int               `json:"outcome,omitempty"`
+	Sector     int               `json:"sector,omitempty"`
+	ToWAL      bool              `json:"to_wal,omitempty"`
+	FailCommit bool              `json:"fail_commit,omitempty"` // the rename that publishes the transaction file fails once: SQLite rolls back
+	Split      bool              `json:"split,omitempty"`
+	CkptMode   int               `json:"ckpt_mode,omitempty"` // 0 passive 1 full 2 restart 3 truncate
+	Ages       []bool            `json:"ages,omitempty"`      // retention: per file (directory order) older than the cut-off?
+	Backup     bool              `json:"backup,omitempty"`    // retention: a backup client is configured
+	HWM        uint64            `json:"hwm,omitempty"`       // retention: high-water mark
+	Spill      int               `json:"spill,omitempty"`     // rtx: pages beyond old and new size spilled to the file and freed again
 }
 
 type Obs struct {
@@ -68,6 +70,7 @@ type Config struct {
 	AllowWAL       bool
 	AllowDrop      bool
 	BigEndian      bool
+	CommitFaults   bool // some rollback-journal commits fail inside LiteFS (the transaction file cannot be published)
 }
 
 type Runner struct {
@@ -91,6 +94,7 @@ type Runner struct {
 	Store      *litefs.Store // the store the history runs on
 	ExitsFn    func() []int
 	External   bool // the store is owned by the caller (no reopen)
+	failRename bool // CommitFaults: the next rename of a transaction file by CommitJournal fails
 	InitTXID   uint64
 	InitChk    uint64
 	InitImage  *lfs.Image
@@ -128,7 +132,21 @@ func NewOn(c *common.Ctx, r *common.Rand, cfg Config, store *litefs.Store, exits
 }
 
 func (h *Runner) open() error {
-	n, err := lfs.Open(h.Dir, true, h.OpenOpts...)
+	opts := h.OpenOpts
+	if h.Cfg.CommitFaults {
+		opts = append(append([]lfs.Option(nil), opts...), func(s *litefs.Store) {
+			ros := &lfs.RecOS{}
+			ros.Fail = func(call lfs.OSCall) error {
+				if h.failRename && call.Op == "COMMITJOURNAL:LTX" {
+					h.failRename = false
+					return fmt.Errorf("injected: rename of the transaction file failed")
+				}
+				return nil
+			}
+			s.OS = ros
+		})
+	}
+	n, err := lfs.Open(h.Dir, true, opts...)
 	h.Node = n
 	h.Store = n.Store
 	h.ExitsFn = n.Exits
@@ -314,6 +332,9 @@ func (h *Runner) genRTX(cur uint32, toWAL bool) Step {
 	if cur > 0 && r.Chance(18) {
 		st.Spill = 1 + r.Intn(3)
 	}
+	if h.Cfg.CommitFaults && cur > 0 && st.Outcome == 0 && !toWAL && r.Chance(15) {
+		st.FailCommit = true
+	}
 	if h.Cfg.Regime == 3 { // keep lock-page regimes sparse: do not write thousands of pages
 		for pg := range st.Writes {
 			if pg > 6 && (pg+3 < lfs.LockPgno(h.Cfg.PageSize) || pg > lfs.LockPgno(h.Cfg.PageSize)+3) {
@@ -396,7 +417,26 @@ func (h *Runner) Exec(st Step) Obs {
 					tx.Spill[top+uint32(i)] = h.page(top+uint32(i), h.nextContent(), st.NewSize, wal)
 				}
 			}
+			failing := st.FailCommit && lfs.RollbackOutcome(st.Outcome) == lfs.Commit
+			if failing {
+				h.failRename = true
+				h.Pager.RollbackOnCommitError = true
+				h.Pager.CommitErr2 = nil
+			}
 			err = h.Pager.RunRollbackTx(h.Ref, tx, lfs.JournalMode(st.JMode), lfs.RollbackOutcome(st.Outcome), st.Sector, 0)
+			if failing {
+				h.Pager.RollbackOnCommitError = false
+				injected := err != nil && strings.Contains(err.Error(), "injected:") && !h.failRename
+				h.failRename = false
+				if injected && h.Pager.CommitErr2 == nil {
+					// the commit was refused and SQLite rolled back through the journal: the image is the old one,
+					// and the second finalisation of the (valid) journal is one transaction for LiteFS
+					err = nil
+					h.RefPos++
+					ob.Captured = true
+					return
+				}
+			}
 			if err == nil {
 				if lfs.RollbackOutcome(st.Outcome) == lfs.Commit {
 					h.Ref = lfs.ApplyTx(h.Ref, tx, ps)
